@@ -129,7 +129,6 @@ func dedupeSlice[S ~[]E, E any](x S, cmp func(a, b E) bool) S {
 // will dump the error's stack trace if necessary.
 func serializeAttrs(pc *PrintCtx, kvps Attrs) (err error) { //nolint:revive
 	prefix := pc.prefix
-	inGroupedMode := pc.inGroupedMode
 
 	if pc.dedupeAttrs {
 		verifEvent("sort.begin", uintptr(unsafe.Pointer(unsafe.SliceData(kvps))), uintptr(len(kvps)))
@@ -178,20 +177,13 @@ func serializeAttrs(pc *PrintCtx, kvps Attrs) (err error) { //nolint:revive
 			ct.echoColorAndBg(pc, pc.clr, pc.bg)
 		}
 
-		if !inGroupedMode {
-			_, inGroupedMode = v.(groupedValue)
-		}
+		// per item: a group only contributes the prefix of its members
+		_, isGroup := v.(groupedValue)
 
 		key := v.Key()
-		if inGroupedMode && !pc.jsonMode && pc.valueStringer == nil {
+		if isGroup && !pc.jsonMode && pc.valueStringer == nil {
 			key = strings.DotPrefix(key, prefix)
 		} else {
-			if inGroupedMode && !pc.jsonMode && pc.valueStringer == nil {
-				panic("impossible condition matched: inGroupedMode && !pc.jsonMode")
-				// if inGroupedMode && !pc.jsonMode {
-				// 	key = DotPrefix(key, prefix)
-				// }
-			}
 			if !pc.jsonMode {
 				key = strings.DotPrefix(key, prefix)
 			}
